@@ -12,7 +12,9 @@
 //   (each call runs in its own forked child).
 // Oracle (evaluated directly on the library's outputs, independent of the model), appended as
 //   \t#ORACLE:<section>:<class>[:detail]   classes: shape, unfaithful, key-not-symbol,
-//   duplicate-symbol, not-fresh, cyclic, crash, hang, exception.  Hints for the class key:
+//   duplicate-symbol, not-fresh, cyclic, crash, hang, exception.  unfaithful carries the detail
+//   "expand-equal" when back-substituted and input differ as trees but their difference expands to 0,
+//   "differs" otherwise.  Hints for the class key:
 //   \t#HINT:reserved-funsym   some FunctionSymbol named add / mul / pow occurs in es
 //   \t#HINT:piecewise         some Piecewise occurs in es
 #include <symengine/basic.h>
@@ -129,7 +131,16 @@ static std::string run_phase(const std::string &tag, const vec_basic &es, bool f
     } else {
         for (size_t i = 0; i < back.size() && i < es.size(); i++)
             if (!eq(*back[i], *es[i]) or !eq(*es[i], *back[i])) {
-                orc << "\t#ORACLE:" << tag << ":unfaithful:" << i;
+                // not eq as trees; are they at least the same polynomial expression (the
+                // difference expands to 0)?  Then the rebuild only changed the canonical form
+                // (SymEngine's add() is not associative on nested sums with coefficients).
+                std::string how = "differs";
+                try {
+                    if (eq(*expand(sub(back[i], es[i])), *zero))
+                        how = "expand-equal";
+                } catch (...) {
+                }
+                orc << "\t#ORACLE:" << tag << ":unfaithful:" << how << ":" << i;
                 break;
             }
     }
